@@ -204,8 +204,10 @@ fn main() {
     let mut rng = Rng::new(seed).fork(0xC11).fork(shard.0 + 1);
     let c64 = args.get("corpus64").map(gen::read_corpus).unwrap_or_default();
     let c32 = args.get("corpus32").map(gen::read_corpus).unwrap_or_default();
+    let c64s = args.get("corpus64s").map(gen::read_corpus).unwrap_or_default();
+    let c32s = args.get("corpus32s").map(gen::read_corpus).unwrap_or_default();
     // the whole hard-case corpus once (sharded), exact and truncated, with neighbours
-    for (fmt, corp) in [(F64, &c64), (F32, &c32)] {
+    for (fmt, corp) in [(F64, &c64), (F32, &c32), (F64, &c64s), (F32, &c32s)] {
         for (i, &(w, q)) in corp.iter().enumerate() {
             if i as u64 % shard.1 != shard.0 {
                 continue;
@@ -238,6 +240,8 @@ fn main() {
     }
     ctx.rep.extra.insert("corpus_entries_f64".into(), format!("{}", c64.len()));
     ctx.rep.extra.insert("corpus_entries_f32".into(), format!("{}", c32.len()));
+    ctx.rep.extra.insert("corpus_short_entries_f64".into(), format!("{}", c64s.len()));
+    ctx.rep.extra.insert("corpus_short_entries_f32".into(), format!("{}", c32s.len()));
     let mut i = 0u64;
     loop {
         if i % 64 == 0 && ctx.rep.out_of_time() {
